@@ -110,8 +110,9 @@ CHECKS.update({
                      "part, labels, global sort, pairing) exhaustively over all label patterns on <= 3x3 blocks. Bounded; floating-point kernels cannot be proved here.",
                 technique="runtime contracts on the real kernels over bounded-exhaustive label patterns and structured matrices (bounded stand-in)",
                 note=OTHER_NOTE),
-    "C11": dict(cat="exploration", ref="DESIGN §8 C11",
-                text="Runtime contracts on TTNS/TTNO methods (constructor, todense, add, scale, copy, apply, canonicalise, lossless compress, norm, expectation, site/DoF RDMs, "
+    "C11": dict(cat="other", ref="DESIGN §8 C11",
+                text="Exact symbolic execution of the real TTNS/TTNO code (todense, add, scale, apply, expectation, 1-DoF RDMs) for EVERY rooted ordered tree shape with up to 4(5) nodes "
+                     "(all tensor values; polynomial identities); runtime contracts on TTNS/TTNO methods (constructor, todense, add, scale, copy, apply, canonicalise, lossless compress, norm, expectation, site/DoF RDMs, "
                      "entropies, chain->tree conversion, find_path) against an independent recursive tree contraction over the enumeration of rooted ordered tree shapes "
                      "(every child order is its own case), groupings and dummy placements. Bounded.",
                 technique="runtime contracts against an independent tree contraction over enumerated tree shapes (bounded stand-in)",
@@ -160,7 +161,7 @@ def main():
         "engines": [
             {"name": "pyvc", "path": "vk/pyvc", "serves_properties": ["C02", "C03", "C04", "C05", "C06", "C14", "C20"], "kind_free_text": "AST -> verification conditions (loop invariants, call by contract) -> z3/cvc5"},
             {"name": "exact-exec", "path": "vk/symx/exactexec.py", "serves_properties": ["C19"], "kind_free_text": "real source executed on exact rationals / z3 reals"},
-            {"name": "symx", "path": "vk/symx", "serves_properties": ["C03", "C07"], "kind_free_text": "real NumPy-level code executed on exact symbolic polynomial scalars; identities decided by normal form"},
+            {"name": "symx", "path": "vk/symx", "serves_properties": ["C03", "C07", "C11"], "kind_free_text": "real NumPy-level code executed on exact symbolic polynomial scalars; identities decided by normal form"},
             {"name": "rtc", "path": "vk/rtc", "serves_properties": ["C01", "C02", "C03", "C04", "C05", "C06", "C07", "C08", "C09", "C10", "C11", "C12", "C13", "C14", "C15", "C16", "C17", "C18", "C20"], "kind_free_text": "runtime contracts on the real functions, bounded-exhaustive inputs (bounded stand-in, never counted as proved)"},
         ],
         "checks": checks,
